@@ -176,6 +176,30 @@ def run(chk, replay=None):
         if ci != want:
             chk.violation({"class": "delivery", "what": "%s: expected %s got %s" % (kind, want, ci)},
                           dict(base, expected=want, broken="a witness expression does not evaluate to the value supplied under its name (C05_delivery / C05_witness_expression + C01)"))
+    # every public way of attaching witness values applies the same type check: satisfy, satisfy_with_env(.., None),
+    # satisfy_with_env(.., Some(env)) and SatisfiedProgram::new answer Err for every map the model calls inconsistent (none panics,
+    # none lets the value through to pruning / encoding), and Ok for consistent ones (with an environment: Ok when the program succeeds)
+    pl = ["(satpaths %s () %s)" % (quote(c[0]), corelib.bindings_sx(c[3])) for c in cases]
+    for (text, decl, lits, m, kind), x, y, r, ln in zip(cases, impl("core", pl), mb, ia, pl):
+        got = dict(re.findall(r"\((satisfy|env-none|env-some|new) (ok|panic|\(err)", x))
+        chk.case(ln)
+        if len(got) != 4:
+            chk.violation({"class": "satisfy-panic", "what": "%s %s" % (kind, x[:120])}, {"cmd": "core", "line": ln, "program": text, "implementation": x[:600], "broken": "unexpected answer of the entry points"})
+            continue
+        for path, ans in got.items():
+            if y != "true":
+                want = "(err"
+            elif path == "env-some" and corelib.classify_impl(r) != "ok":
+                continue        # consistent, but the program itself fails under the environment: Err is right (C18)
+            else:
+                want = "ok"
+            chk.count("paths.%s.%s" % (path, ans.strip("(")))
+            if ans != want:
+                chk.violation({"class": "consistency", "what": "%s: %s answers %s, model consistent=%s || %s" % (kind, path, ans.strip("("), y, x[:100])},
+                              {"cmd": "core", "line": ln, "program": text, "witness": corelib.bindings_sx(m), "implementation": x[:800], "model_consistent": y, "entry_point": path,
+                               "expected": "Err" if y != "true" else "Ok",
+                               "broken": "this entry point does not apply the witness type check like satisfy does (an ill-typed value is accepted, reaches pruning or the encoder, or panics)"})
+                break
     # witnesses declared through a builtin alias: a value of the documented type (book/src/type_alias.md) is accepted, a value of
     # a different type with the same layout is not
     doc = os.path.join(REPO, "book", "src", "type_alias.md")
